@@ -418,7 +418,7 @@ for _n in range(0, 6):
 SENDER = BASE + '._sender'
 
 
-@harness('c05.sender.iteration', ['C05', 'C01', 'C11'], functions=[SENDER, GET_NEXT],
+@harness('c05.sender.iteration', ['C05', 'C01', 'C11', 'C12'], functions=[SENDER, GET_NEXT],
          assumptions=['Transport.send_frame / on_send_queue_empty are abstract suspension points that may raise',
                       'rely: while the sender is suspended other segments only append to the send queue (send_frame contract), '
                       'which preserves Inv_Q (c05.send_frame)'])
@@ -426,6 +426,7 @@ def sender_iteration(E):
     sock, q, st, log, transport = emit_setup(E)
     s = q.attrs['_sym']
     futs = []
+    gave_up = []
 
     def next_fragment(E_, obj, method, args, kwargs):
         fid = obj.attrs['_id']
@@ -433,6 +434,11 @@ def sender_iteration(E):
         if E_.path.choice(2, 'has-sent-future') == 1:
             fut = aio.new_future(E_)
             futs.append(fut)
+            # the future is the awaitable fire_and_forget() / metadata_push() handed to the application, which may have given
+            # up on it (asyncio.wait_for timing out cancels it) before the frame is written
+            if E_.path.choice(2, 'application-cancelled-the-awaitable-before-the-frame-was-written') == 1:
+                fut.attrs['state'] = 'cancelled'
+                gave_up.append(fut)
         fr = SOpaque('fragment-frame', 'fragment', attrs={'flags_follows': E_.fresh_bool('follows'), 'source': fid, 'sent_future': fut})
         return fr
     log.returns['get_next_fragment'] = next_fragment
@@ -443,7 +449,13 @@ def sender_iteration(E):
     E.stubs['rsocket/rsocket_server.py::RSocketServer._current_transport'] = lambda E_, f, a, k: tf
     alive = [True, False]
     E.stubs['rsocket/rsocket_server.py::RSocketServer.is_server_alive'] = lambda E_, f, a, k: alive.pop(0)
-    E.await_value(E.call(E.getattr(sock, '_sender'), []))
+    try:
+        E.await_value(E.call(E.getattr(sock, '_sender'), []))
+    except PyExc as e:
+        E.cover('sender-died')
+        E.prove('@C12,C05,C11,C01:sender:an_awaitable_the_application_gave_up_on_does_not_stop_the_sender[%s escaped: nothing is written any more, '
+                'every later request on the connection hangs]' % e.value.cls.name, False)
+        return
     E.cover('one-iteration')
     sends = log.of(transport, 'send_frame')
     E.prove('sender:exactly_one_frame_written_per_iteration', len(sends) == 1)
@@ -451,13 +463,15 @@ def sender_iteration(E):
     src = fr.attrs.get('source', fr.attrs.get('_id'))
     E.prove('sender:written_frame_belongs_to_head', src == z3.Select(s['arr0'], s['h0']))
     fut = fr.attrs.get('sent_future')
-    if fut is not None:
+    if fut is not None and fut in gave_up:
+        E.prove('sender:a_cancelled_awaitable_stays_cancelled', fut.attrs['state'] == 'cancelled')
+    elif fut is not None:
         E.prove('sender:sent_future_of_written_frame_resolved', fut.attrs['state'] == 'result')
         ev = [e for e in E.path.ghost.get('events', []) if e[0] == 'future.set_result' and e[1] == fut.attrs['label']]
         E.prove('sender:resolved_exactly_once', len(ev) == 1)
     for other in futs:
         if other is not fut:
-            E.prove('sender:no_other_future_resolved', other.attrs['state'] == 'pending')
+            E.prove('sender:no_other_future_resolved', other.attrs['state'] == ('cancelled' if other in gave_up else 'pending'))
 
 
 # --------------------------------------------------------------------------- frame condition: who may touch the send queue
